@@ -37,8 +37,10 @@ THEOREMS = [
     "C15_kmeans_stop_rule_unit_free",
     "C15_ml_fit_equivariant_of_shift_invariant_stop",
     "C15_abs_stop_shift_invariant",
+    "C15_assignment_history_equivariant",
+    "C15_fresh_machines_related",
 ]
-CORR_OPS = ["gmm_ll:transformed", "gmm_estep:transformed"]
+CORR_OPS = ["gmm_ll:transformed", "gmm_estep:transformed", "gmm_ops:log_likelihood", "gmm_ops:variances", "gmm_ops:weights"]
 RULE = ("pairs (original, affinely transformed) of inputs: per-feature scales in +-[1e-3, 1e3] (negative and widely different magnitudes), "
         "shifts up to 10 scales, rotations for k-means; kernels: log-likelihood, statistics, GMM ML / MAP training, linear scoring, ISV / JFA "
         "enrolment, scoring and latent factors, i-vectors, k-means; non-trivial = >= 2 features with different scales or a negative scale")
@@ -88,6 +90,11 @@ def correspondence(ctx):
         ms = gen.stats_dec(o2["whole"])
         if isinstance(st, core.ImplError) or not (core.close(ms["n"], st["n"], 1e-6, 1e-7) and ms["t"] == st["t"]):
             bad.append({"op": "gmm_estep:transformed", "input": sc, "model": ms, "impl": repr(st) if isinstance(st, core.ImplError) else st})
+    # the machine's setters and floors as a state machine (the model C15_assignment_history_equivariant is about): random public
+    # histories on the real object against the model, as in C17
+    from props import c17
+
+    bad += c17.correspondence(ctx, n=ctx.budget(20, 150))
     return bad
 
 
@@ -116,6 +123,31 @@ def o_loglik(sc):
     s0, s1 = g.acc_stats(sc["X"]), gt.acc_stats(a * sc["X"] + b)
     if not core.close(s0.n, s1.n, 1e-7, 1e-8):
         return {"sig": "responsibilities-not-invariant", "what": f"{np.asarray(s0.n).tolist()} vs {np.asarray(s1.n).tolist()}"}
+    return None
+
+
+def o_floors(sc, rng):
+    """a model whose variance floor is active: a scalar floor f in the original units is the per-feature floor a^2 f in the new
+    ones (as the property prescribes), whatever the order in which parameters and floors are given to the machine; the clamped
+    variances are then a^2 times the original clamped ones and log-likelihoods shift by -sum log|a|"""
+    a, b = sc["a"], sc["b"]
+    v = np.asarray(sc["v"], float)
+    f = float(np.exp(rng.uniform(np.log(np.min(v)), np.log(np.max(v)))))  # clamps some entries, not all
+    fl = np.broadcast_to(a * a * f, v.shape)
+    fl = fl.copy() if rng.random() < 0.5 else (a * a * f) * np.ones(v.shape[1])
+    l0 = None
+    for order in ("thr_first", "thr_last", "restage"):
+        g = gen.mk_gmm(sc["w"], sc["m"], v, thr=f, order=order)
+        gt = core.impl(lambda: gen.mk_gmm(sc["w"], a * sc["m"] + b, a * a * v, thr=fl, order=order))
+        if isinstance(gt, core.ImplError):
+            return {"sig": "floored-variances-not-equivariant", "what": f"floors set {order}: {gt!r}"}
+        v0, v1 = np.asarray(g.variances, float), np.asarray(gt.variances, float)
+        if not core.close(v1, a * a * v0, 1e-9, 0):
+            return {"sig": "floored-variances-not-equivariant", "what": f"floor {f} -> a^2 * {f} per feature, set {order}: variances {v1.tolist()} vs a^2 * {v0.tolist()}"}
+        l0 = np.asarray(g.log_likelihood(sc["X"]), float)
+        l1 = core.impl(lambda: np.asarray(gt.log_likelihood(a * sc["X"] + b), float))
+        if isinstance(l1, core.ImplError) or not core.close(l1, l0 - np.sum(np.log(np.abs(a))), 1e-8, 1e-6):
+            return {"sig": "loglik-shift", "what": f"active floors set {order}: log-likelihoods {l1!r} vs original {l0.tolist()} - sum log|a| {np.sum(np.log(np.abs(a)))}"}
     return None
 
 
@@ -385,6 +417,14 @@ def o_kmeans(rng):
         Q, s, thr = np.eye(D), 1.0, None
         t = np.round(rng.uniform(2.0**26, 2.0**30, D)) * rng.choice([-1.0, 1.0], D)
     f = lambda Z: s * Z @ Q.T + t
+    pixels = bool(not far and rng.random() < 0.15)
+    if pixels:
+        # features stored as bytes (0 .. 255), shifted by a whole number of grey levels: still bytes, still the same clustering problem
+        X = np.clip(np.rint(X * 6 + 60), 0, 120).astype(np.uint8)
+        c0 = np.asarray(X[:K], dtype=float) + 0.25
+        Q, s, thr = np.eye(D), 1.0, None
+        t = np.full(D, float(rng.integers(50, 130)))
+        f = lambda Z: (Z.astype(np.int64) + t.astype(np.int64)).astype(np.uint8) if Z.dtype == np.uint8 else Z + t
     if rng.random() < 0.3 and not far:
         c0 = c0.copy()
         c0[int(rng.integers(0, K))] = X.mean(axis=0) + 50.0 * (1 + rng.random(D))  # a centroid that attracts nothing keeps its place
@@ -426,6 +466,8 @@ def search(ctx):
         if kind == "loglik":
             add(o_loglik(sc), {"kind": kind, **sc})
             add(o_highdim(np.random.default_rng(seed)), {"kind": "highdim", "seed": seed})
+            for sub in range(4):
+                add(o_floors(sc, np.random.default_rng(seed + sub)), {"kind": "floors", "seed": seed + sub, **sc})
         elif kind in ("ml", "map"):
             if sc["C"] >= 2 and ctx.rng.random() < 0.35:
                 # one component far from all data: it gets no responsibility and must stay where it is (in both systems)
@@ -472,4 +514,6 @@ def replay(d):
         sc[k] = np.asarray(sc[k], dtype=float)
     if kind == "loglik":
         return o_loglik(sc)
+    if kind == "floors":
+        return o_floors(sc, np.random.default_rng(sc["seed"]))
     return o_train(sc, "map" if kind.startswith("map") else "ml")
